@@ -1107,4 +1107,21 @@ func genBt(r *vh.Rand) string {
 	return fmt.Sprintf("bt %s %d %d %d %s", mode, sticky, r.Range(0, 2), r.Range(0, 2), strings.Join(steps, ","))
 }
 
-func main() { vh.Main(gen, exec) }
+func main() {
+	vh.Pre = func(emit func(string), thorough bool) {
+		// cross retry must be able to reach EVERY other sub-cluster of weight >= 0 (black hole and negative ones
+		// excluded): the hash choice `a.first` is down, k others; 48*k identical requests
+		others := []string{"b.gz=0=10.3.1.1:80/100/0/1", "c.hz=7=10.3.2.1:80/100/0/1", "d.nj=1=10.3.3.1:80/100/0/0", "z9=0=-"}
+		for k := 2; k <= 4; k++ {
+			for _, mode := range []string{"wrr 0", "wlc 0", "wrr 1"} {
+				subs := "a.first=1000=10.3.0.1:80/100/0/0;GSLB_BLACKHOLE=0=10.3.9.1:80/100/0/1;n.neg=-5=10.3.8.1:80/100/0/1;" + strings.Join(others[:k], ";")
+				q := make([]string, 48*k)
+				for i := range q {
+					q[i] = "q0:0a000001"
+				}
+				emit(fmt.Sprintf("gb %s 1 1 %s %s", mode, subs, strings.Join(q, ",")))
+			}
+		}
+	}
+	vh.Main(gen, exec)
+}
